@@ -33,12 +33,13 @@ let do_off id t =
   expect t "ROUT"; let rout = z_tok t in
   expect t "G"; let g = group_tok t in
   expect t "R"; let r = group_tok t in
+  expect t "B"; let b = group_tok t in
   expect t "Q"; let probes = poly_tok t in
   expect t "P"; let pts = poly_tok t in
   let unit = pow2 k in
   (* samples closer than one grid unit to an edge of the operands or the result are not judged *)
   let guard = Z.add unit (z_of_int 1) in
-  let good = List.filter (sample_ok (g @ r) guard) pts in
+  let good = List.filter (sample_ok (g @ r @ b) guard) pts in
   total := !total + List.length pts; used := !used + List.length good;
   let f, names =
     match mode with
@@ -54,7 +55,7 @@ let do_off id t =
     | _ ->
         (* probes certainly outside the covered region (and a unit away from every edge) *)
         let outside = List.filter (fun q -> sample_ok g guard q && not (covers g q)) probes in
-        shrink_union_verdict g r outside rin rout,
+        shrink_union_verdict g b r outside rin rout,
         (function 1 -> "point deeper than reach+guard inside the region was removed" | 2 -> "point shallower than |d|-guard was kept" | _ -> "overlapping outputs") in
   (match first_bad f good with
    | None -> out id "S" "ok"
